@@ -14,10 +14,33 @@ DESIGN_REF = "DESIGN.md §5 C26"
 
 def obligations(tier):
     obs = []
-    for kind in ("RESPONSE", "REQUEST"):
-        for minor in (0, 1):
-            obs.append(dict(name="head_%s_1%d" % (kind.lower(), minor), harness="C26_head.c", entry="harness_head",
-                        defines=["VP_" + kind, "VP_MINOR=%d" % minor], unwind=20, timeout=900, mem_gb=8,
-                        unwindset=["evbuffer_add.0:97", "vsnprintf.0:24", "split_lines.0:97", "vp_fmt_unum.0:24", "vp_fmt_unum.1:24", "vp_fmt_unum.2:24"],
-                        desc="%s head HTTP/1.%d written by evhttp_make_header parses back to the caller's content" % (kind.lower(), minor)))
+    # (a) exact bytes written, concrete layout, symbolic caller bytes
+    if tier == "quick":
+        resp = [(0, 200, 2, 3, 2, 0), (1, 200, 2, 3, 2, 2), (1, 204, 1, 0, 0, 0), (1, 404, 4, 6, 4, 1)]
+        reqs = [(1, 0, 2, 3, 2, 0), (1, 1, 1, 0, 1, 2), (0, 2, 4, 6, 4, 0), (1, 3, 2, 2, 3, 0)]
+    else:
+        resp = [(mi, c, k, v, r, b) for mi in (0, 1) for c in (200, 204, 304, 100, 599) for (k, v, r) in ((1, 0, 0), (2, 3, 2), (4, 6, 4)) for b in (0, 1, 2)]
+        reqs = [(mi, m, k, v, r, b) for mi in (0, 1) for m in range(6) for (k, v, r) in ((1, 0, 1), (2, 3, 2), (4, 6, 4)) for b in (0, 2)]
+    for (mi, c, k, v, r, b) in resp:
+        obs.append(dict(name="head_response_1%d_c%d_k%dv%dr%db%d" % (mi, c, k, v, r, b), harness="C26_head.c", entry="harness_head",
+                    defines=["VP_RESPONSE", "VP_MINOR=%d" % mi, "VP_CODE=%d" % c, "VP_K=%d" % k, "VP_V=%d" % v, "VP_R=%d" % r, "VP_B=%d" % b],
+                    unwind=34, unwindset=["harness_head.0:97"], timeout=600, mem_gb=4,
+                    desc="response head HTTP/1.%d code %d: bytes written == format(caller's strings: name %d, value %d, reason %d symbolic bytes; body %d)" % (mi, c, k, v, r, b)))
+    for (mi, m, k, v, r, b) in reqs:
+        obs.append(dict(name="head_request_1%d_m%d_k%dv%dr%db%d" % (mi, m, k, v, r, b), harness="C26_head.c", entry="harness_head",
+                    defines=["VP_REQUEST", "VP_MINOR=%d" % mi, "VP_METHOD=%d" % m, "VP_K=%d" % k, "VP_V=%d" % v, "VP_R=%d" % r, "VP_B=%d" % b],
+                    unwind=34, unwindset=["harness_head.0:97"], timeout=600, mem_gb=4,
+                    desc="request head HTTP/1.%d method #%d: bytes written == format(caller's strings: name %d, value %d, target %d symbolic bytes; body %d)" % (mi, m, k, v, r, b)))
+    # (b) acceptance
+    K, V = (4, 6) if tier == "quick" else (5, 8)
+    for what in ("HEADER", "REASON", "TARGET"):
+        obs.append(dict(name="accept_" + what.lower(), harness="C26_accept.c", entry="harness_accept",
+                    defines=["VP_ACC_" + what, "VP_K=%d" % K, "VP_V=%d" % V], unwind=max(V + 3, 12),
+                    unwindset=["vp_in_set.0:80", "strlen.0:34", "event_mm_strdup_.0:34"], timeout=600, mem_gb=4,
+                    desc="%s accepted by the API is safe to embed, stored unchanged; ordinary strings not refused (name<=%d, value/phrase/target<=%d symbolic bytes)" % (what.lower(), K, V)))
+    # (c) format lemma (reference only)
+    for what in ("FIELD", "STATUS", "REQUEST"):
+        obs.append(dict(name="lemma_" + what.lower(), harness="C26_lemma.c", entry="harness_lemma",
+                    defines=["VP_LEM_" + what, "VP_K=3", "VP_V=%d" % V], unwind=V + 3 + 36, timeout=900, mem_gb=6,
+                    desc="format lemma: head built from safe components parses back to exactly them (reference recipient, lenient and CRLF-only)"))
     return obs
